@@ -395,6 +395,17 @@ REPAIRED_CHECK_TEXTS = [
 ]
 
 
+VALID_NEIGHBOUR_TEXTS = [
+    b"service Svc6 {}\nservice Svc7 extends Svc6 { void ping() }\n",
+    b"service Svc7 extends Svc6 {}\nservice Svc6 extends Svc5 {}\nservice Svc5 { void ping() }\n",
+    b"include \"nbinc.frugal\"\nservice Svc7 extends nbinc.Base {}\n",
+    b"exception Exc7 {}\ntypedef Exc7 Alias7\ntypedef Alias7 Alias6\nservice Svc7 { void f() throws (1: Alias6 e) }\n",
+    b"include \"nbinc.frugal\"\ntypedef nbinc.IncExc Alias7\nservice Svc7 { void f() throws (1: nbinc.IncExc a, 2: Alias7 b) }\n",
+    b"struct S7 { 1: i32 a, 2: string A }\nservice Svc7 { void f(1: i32 a, 2: i32 b) throws () }\n",
+    b"exception Exc7 {}\nservice Svc7 { void f(1: i32 a) throws (1: Exc7 a) }\n",
+]
+
+
 def mutate_program(rng, prog):
     """programs that ParseFrugal must reject (or at least answer in an orderly way): a semantic
     mutation of one file of a valid program"""
@@ -628,11 +639,22 @@ def run(ctx, br):
     n_faulty = len(G.FAULTS) * (1 if quick else 8)
     progs += [gen_program(ctx, rng, 1000 + i, fault=G.FAULTS[i % len(G.FAULTS)]) for i in range(n_faulty)]
     # validation of scope prefixes (validateScopeTypes): a prefix naming a variable twice is rejected since the
-    # repair of C11-K12; replayed by the judge on Model/ParserFiles.v validate_scopes like any other program
+    # repair of C11-K12; replayed by the judge on Model/ParserFiles.v parse_program (= Model/CompilerValidate.v cparse_program) like any other program
     for nm, txt, exp in ((b"dupvar.frugal", b"struct E {}\nscope Sc prefix a.{zone}.{zone} { op: E }\n", "reject"),
                          (b"dupvar2.frugal", b"struct E {}\nscope Ok prefix {a}.{b} { op: E }\nscope Sc prefix {u}.x.{v}.{u} { op: E }\n", "reject"),
                          (b"twovars.frugal", b"struct E {}\nscope Sc prefix a.{zone}.{user} { op: E }\n", "accept")):
         progs.append({"files": {nm: txt}, "root": nm, "models": {}, "mutated": True, "expect": exp})
+    # every check the repairs of validate added, each alone in a small file (all of them in every run), and their
+    # valid neighbours
+    for i, txt in enumerate(REPAIRED_CHECK_TEXTS):
+        nm = ("chk%d.frugal" % i).encode()
+        progs.append({"files": {nm: b"struct E {}\n" + txt}, "root": nm, "models": {}, "mutated": True,
+                      "expect": "reject", "fault": "invalid declaration " + repr(txt.strip().decode())})
+    for i, txt in enumerate(VALID_NEIGHBOUR_TEXTS):
+        nm = ("nb%d.frugal" % i).encode()
+        progs.append({"files": {nm: txt, b"nbinc.frugal": b"service Base {}\nexception IncExc {}\n"}, "root": nm,
+                      "models": {}, "mutated": True, "expect": "accept",
+                      "fault": "valid declaration " + repr(txt.strip().decode())})
     preqs = []
     for i, p in enumerate(progs):
         preqs.append({"op": "files", "dir": os.path.join(ctx.rundir, "prog", str(i)),
@@ -651,7 +673,8 @@ def run(ctx, br):
             elif p.get("expect") == "reject" and r.get("code") == 0:
                 why = "an invalid program was accepted (%s)" % p.get("fault", "a scope prefix that names a variable twice")
             elif p.get("expect") == "accept" and r.get("code") != 0:
-                why = "a scope prefix with distinct variables was rejected: %s" % r.get("msg")
+                why = "a valid program was rejected (%s): %s" % (p.get("fault", "a scope prefix with distinct variables"),
+                                                                 r.get("msg"))
             elif p.get("expect_msg") and not re.search(p["expect_msg"], r.get("msg", "")):
                 why = "an invalid program (%s in %s) was rejected for another reason: %s" % (
                     p["fault"], p["fault_in"], r.get("msg", "")[:300])
@@ -691,7 +714,7 @@ def run(ctx, br):
                           {"files": {n.decode(): t.decode("utf8", "backslashreplace") for n, t in p["files"].items()},
                            "root": p["root"].decode(), "observed": {k: r.get(k) for k in ("code", "msg", "panic")},
                            "no_failing_input_found": True,
-                           "broken": "correspondence JParser.judge_files (Model/ParserFiles.v disagrees with parser.ParseFrugal)"})
+                           "broken": "correspondence JParser.judge_files (Model/ParserFiles.v parse_program, i.e. Model/CompilerValidate.v cparse_program on the PEG model's parse trees, disagrees with parser.ParseFrugal)"})
     mism = [i for i, v in enumerate(verdicts) if v < 0]
     for i in mism:
         c, r = cases[i], resps[i]
@@ -736,7 +759,10 @@ def run(ctx, br):
         "distinct_nontrivial": distinct,
         "rule": "seeded IDL models (all declaration kinds, annotations in every position, doc comments, containers, "
                 "constants incl. lists/maps/identifier references/doubles, includes across 1-4 files) rendered in random "
-                "lexical styles; hazard cases (one Thrift-valid construct the grammar still mishandles each) and targeted "
+                "lexical styles; programs with one semantic fault injected into a generated declaration of a reachable "
+                "file (dangling / circular extends, throws of a non-exception directly, through a container or an alias, "
+                "duplicate names / ids among fields, arguments, exceptions, duplicate prefix variables), each check also "
+                "alone in a small file with its valid neighbours; hazard cases (one Thrift-valid construct the grammar still mishandles each) and targeted "
                 "cases for every construct the pinned grammar mishandled (repaired); mutated texts. "
                 "non-trivial = accepted well-formed text with >= 1 declaration; distinct by text",
         "traces_validated_against_impl": len([v for v in verdicts if v >= 0]) + frag["instances_accepted_by_judge"],
